@@ -4,7 +4,8 @@
    the returned identity is live, and it denotes [f] in every environment. *)
 From Coq Require Import Reals List.
 From LF Require Import Base.Opcode Base.Num Base.Arena Base.Sem Base.RInst
-  Tree.Build Tree.BuildSem Tree.RemapSem Tree.Flatten Tree.FlattenSem.
+  Tree.Build Tree.BuildSem Tree.RemapSem Tree.Flatten Tree.FlattenSem
+  Tree.Optimize Tree.OptimizeSem Tree.EqSound.
 
 Section C07.
   Context {num : Type} (O : ops num) (osem : nat -> num -> num -> num -> num).
@@ -53,9 +54,33 @@ Theorem C07_reals_instance : forall uf bf,
   laws (R_ops uf bf).
 Proof. exact R_laws. Qed.
 
+(* Tree::optimized (flatten, affine-map accumulation, commutative lists, canonical
+   map) preserves the function: over the reals, for every interpretation of the
+   opcodes the rewriting never inspects, every DAG (sharing, remap/apply nodes,
+   constants 0 / 1 / -1, repeated and reordered operands). *)
+Theorem C07_optimized_sem : forall uf bf,
+  (forall x, bf OP_POW x 1%R = x) -> (forall x, bf OP_NTH_ROOT x 1%R = x) ->
+  forall osem (a : arena R) i,
+    arena_wf a -> base_ok (R_ops uf bf) a -> i < length a -> noT a i ->
+    let '(a', j) := optimized (R_ops uf bf) a i in
+    extends a a' /\ arena_wf a' /\ j < length a' /\
+    forall r, val (R_ops uf bf) osem a' j r = val (R_ops uf bf) osem a i r.
+Proof. exact optimized_sem_noT. Qed.
+
+(* two trees that the deep-equality test calls equal denote the same function *)
+Theorem C07_eq_sound : forall uf bf,
+  (forall x, bf OP_POW x 1%R = x) -> (forall x, bf OP_NTH_ROOT x 1%R = x) ->
+  forall osem (a : arena R) i j,
+    arena_wf a -> base_ok (R_ops uf bf) a -> i < length a -> j < length a -> noT a i -> noT a j ->
+    snd (tree_eq (R_ops uf bf) a i j) = true ->
+    forall r, val (R_ops uf bf) osem a i r = val (R_ops uf bf) osem a j r.
+Proof. exact eq_sound. Qed.
+
 Print Assumptions C07_unary_sem.
 Print Assumptions C07_binary_sem.
 Print Assumptions C07_remap_sem.
 Print Assumptions C07_apply_sem.
 Print Assumptions C07_flatten_sem.
 Print Assumptions C07_reals_instance.
+Print Assumptions C07_optimized_sem.
+Print Assumptions C07_eq_sound.
